@@ -41,6 +41,10 @@ sys.path.insert(0, os.path.join(VERIF, "bin"))
 from props import PROPS  # noqa: E402  (per-property configuration)
 
 ENV = dict(os.environ, CARGO_NET_OFFLINE="true")
+try:
+    FLOORS = {k: v for k, v in json.load(open(os.path.join(VERIF, "bin", "coverage_floors.json"))).items() if isinstance(v, dict)}
+except (OSError, ValueError):
+    FLOORS = {}
 
 
 def sh(cmd, cwd=None, timeout=None, inp=None):
@@ -282,6 +286,11 @@ def check(pid, tier, seed):
             for fp, fj in r["failures"]:
                 if fp == pid:
                     failing.append(fj)
+            # coverage floors: a family of inputs that past seeded changes needed must still be produced
+            if not r["error"]:
+                for k, m in FLOORS.get(suite, {}).items():
+                    if r["stats"].get(k, 0) < m:
+                        tie_broken.append({"kind": "coverage", "what": f"suite {suite}: statistic {k} = {r['stats'].get(k, 0)}, below the floor {m} (bin/coverage_floors.json): the generator / oracle no longer produces this family"})
     elif cb["ok"]:
         tie_broken.append({"kind": "model-driver", "what": "xotmodel executable missing (lake build failed)"})
     # if the tie is broken, search harder on the implementation for a failing input
